@@ -14,7 +14,7 @@ def path_key(p):
 
 def check_c13(tier):
     V = C.Verdict("C13", tier, "model_checking")
-    meta = C.run_tlc("Discovery", "Discovery.cfg", workers=8, timeout=3600)
+    meta = C.run_tlc("Discovery", "Discovery.cfg" if tier == "quick" else "Discovery_thorough.cfg", workers=8, timeout=3600)
     if not meta["ok"]:
         raise C.ToolError("TLC on Discovery failed: %s" % meta["errors"])
     C.build_harness()
